@@ -209,6 +209,10 @@ def run(ctx, rep) -> None:
     rep.rule("C02.3", "both methods precondition the same input; Shampoo result *= ||graft|| / (||shampoo|| + tiny); grafting accumulator updated whenever grafting is configured")
     rep.rule("C02.4", "no rescaling in warm-up; the phase flag selects which list produces the direction")
     rep.attempt("grafting_table", grafting_table, ctx, rep, "C02.1")
+    from .common import per_group_fresh
+
+    rep.rule("C02.6", "the phase switch is per group: each group owns its step counter and grafting state (objects created per group)")
+    rep.attempt("per_group_fresh", per_group_fresh, ctx, rep, "C02.6", [f"{DS}.{n}" for n in ("_instantiate_grafting", "_instantiate_steps", "_instantiate_shampoo_preconditioner_list")])
     step = ctx.repo.method(DS, "step")
     rep.attempt("schedule_expr_check", schedule_expr_check, ctx, rep, "C02.2", step, "use_grafting_method", lambda s, a, f, env: s < a and next(iter(v for k, v in env.items() if isinstance(v, dict)))["grafting_config"] is not None, "step < start and grafting_config is not None", extra_env={"__graft__": [None, "cfg"]})
     rep.attempt("graft_dataflow", graft_dataflow, ctx, rep, "C02.3", "C02.4")
